@@ -539,6 +539,33 @@ def estimateDrive (freqs mags : List α) (guess search delta npts totalPower sum
 
 end deepen
 
+/-! ## Deepening round D — argument validation of `fit_power_spectrum` -/
+
+inductive Loss where
+  | gaussian
+  | lorentzian
+  | other        -- any other string
+deriving Repr, DecidableEq
+
+inductive FitErr where
+  | runtime
+  | value
+deriving Repr, DecidableEq
+
+def FitErr.name : FitErr → String
+  | .runtime => "RuntimeError"
+  | .value => "ValueError"
+
+/-- the `raise` statements of `fit_power_spectrum` before anything is fitted, in the order the code
+    executes them: fewer than 4 points, unknown loss function, bias correction with the robust
+    loss, empty analytical fit range (`nAnl` = number of points inside `analytical_fit_range`) -/
+def fitValidate (npts : Nat) (loss : Loss) (bias : Bool) (nAnl : Nat) : Option FitErr :=
+  if npts < 4 then some .runtime
+  else match loss with
+    | .other => some .value
+    | .lorentzian => if bias then some .runtime else if nAnl < 1 then some .runtime else none
+    | .gaussian => if nAnl < 1 then some .runtime else none
+
 /-! ## Line protocol -/
 
 def optFloat? (s : String) : Option (Option Float) :=
@@ -734,6 +761,12 @@ def handle : List String → Option String
     | .error e => some e.name
     | .ok r => some (s!"ok {r.maxIdx} " ++ showFloatList [r.freq, r.amp, r.ampStd] ++ " " ++
         showFloatList [r.p0, r.p1, r.p2])
+  | ["c11.fitvalidate", npts, loss, bias, nAnl] => do
+    let npts ← nat? npts; let bias ← bool? bias; let nAnl ← nat? nAnl
+    let loss : Loss := if loss == "gaussian" then .gaussian else if loss == "lorentzian" then .lorentzian else .other
+    match fitValidate npts loss bias nAnl with
+    | some e => some e.name
+    | none => some "ok"
   | _ => none
 
 end Verif.C11
